@@ -861,7 +861,9 @@ func c06CheckFeature(c C06Case, cx *h.Ctx) *h.Failure {
 	if err != nil {
 		return h.Failf("fc/marshal-error", "json.Marshal(FeatureCollection): %v", err)
 	}
-	var fcBack geom.GeoJSONFeatureCollection
+	// the destination already holds other features (more of them than the document has): none may survive
+	stale := geom.GeoJSONFeature{Geometry: dirty(gm.Point), ID: "stale", Properties: map[string]interface{}{"stale": true}, ForeignMembers: map[string]interface{}{"stale_foreign": 1.0}}
+	fcBack := geom.GeoJSONFeatureCollection{stale, stale, stale, stale, stale}
 	if err := json.Unmarshal(fcOut, &fcBack); err != nil {
 		return h.Failf("fc/unmarshal-error", "FeatureCollection does not decode: %v\n%s", err, fcOut)
 	}
@@ -873,8 +875,14 @@ func c06CheckFeature(c C06Case, cx *h.Ctx) *h.Failure {
 			return h.Failf("fc/geometry-differs", "feature %d geometry differs: %s", i, d)
 		}
 	}
-	if !jsonEq(fcBack[0].ID, wantID) || !(len(wantForeign) == 0 && len(fcBack[0].ForeignMembers) == 0) && !jsonEq(fcBack[0].ForeignMembers, wantForeign) {
-		return h.Failf("fc/feature-fields-differ", "feature 0 id/foreign members differ inside a FeatureCollection\n%s", fcOut)
+	if !jsonEq(fcBack[0].ID, wantID) || !(len(wantForeign) == 0 && len(fcBack[0].ForeignMembers) == 0) && !jsonEq(fcBack[0].ForeignMembers, wantForeign) ||
+		!(len(wantProps) == 0 && len(fcBack[0].Properties) == 0) && !jsonEq(fcBack[0].Properties, wantProps) {
+		return h.Failf("fc/feature-fields-differ", "feature 0 id/properties/foreign members differ inside a FeatureCollection\n%s", fcOut)
+	}
+	for i := 1; i < len(fcBack); i++ {
+		if fcBack[i].ID != nil || len(fcBack[i].Properties) != 0 || len(fcBack[i].ForeignMembers) != 0 {
+			return h.Failf("fc/feature-fields-differ", "feature %d was written without id, properties or foreign members but decodes with %v / %v / %v\n%s", i, fcBack[i].ID, fcBack[i].Properties, fcBack[i].ForeignMembers, fcOut)
+		}
 	}
 	var fcTop map[string]json.RawMessage
 	json.Unmarshal(fcOut, &fcTop)
